@@ -2,7 +2,7 @@
 C15 (source tie) — the hand-written model of the trust-anchor proxy's two gate-keeping commands
 (`KM.Ta.processSignerResponse`, the `makeSignerRequest` arm of `KM.Ta.process`, Ta/Proxy.lean) equals
 the definitions that the translator `pure_fns` regenerates from `/repo/src/server/taproxy.rs` on every
-run (`Generated/PureFns.lean`: `KM.Gen.TrustAnchorProxy.process_signer_response`,
+run (`Generated/PureFnsC15.lean`: `KM.Gen.TrustAnchorProxy.process_signer_response`,
 `…process_make_signer_request`).
 
 `response_accepted_iff` (a response is accepted iff a request is open ∧ its nonce is that request's ∧
@@ -17,7 +17,7 @@ Instantiation: nonces ↦ `Nat`, the associated signer ↦ `SignerInfo`, `respon
 `Signed.validFor m s.idKey` (as `Except`), the three errors ↦ the model's `Err`, the accepted event
 list ↦ `[.signerResponseReceived m.clear]`.
 -/
-import KrillModel.Generated.PureFns
+import KrillModel.Generated.PureFnsC15
 import KrillModel.Ta.Proxy
 namespace KM.Props.C15Src
 open KM.Ta
